@@ -350,8 +350,12 @@ impl FrameQueue {
             }
         }
 
-        // Add to pending feedback data
-        self.feedback_gen.put_ack_data(AckData { last_send_time_ms, total_ack_size, rate_limited });
+        // Add to pending feedback data, but only if this group acknowledged something new. A
+        // repeated (duplicated or replayed) group carries no information, and reporting it with
+        // last_send_time_ms = 0 would yield an RTT sample equal to the age of the connection.
+        if total_ack_size > 0 {
+            self.feedback_gen.put_ack_data(AckData { last_send_time_ms, total_ack_size, rate_limited });
+        }
     }
 
     pub fn can_advance_transfer_window(&mut self, new_base_id: u32) -> bool {
